@@ -18,8 +18,9 @@ SPEC = {
         'traceback module does. Not decided: the line-scanner state machine of from_string, TracebackInfo/ExceptionInfo '
         'against live frames.'
         ' T12.groups: the named groups of the frame patterns accept any text (lineno: digits), decided on the regex AST over a probe alphabet. T7.discard: the trailing-noise discard is guarded by both a prefix and a suffix test on every way to reach it (DNF). T25.globals: both Callpoint constructors pass the frame globals to _DeferredLine.'
-        ' T19c: limit=None is recognised by identity in both frame walkers. T19.value: the exception instance is never truth-tested. T9.trim: the traceback text is never right-trimmed as a whole.'),
-    'decided': ['limit defaulting by identity', 'exception value examined by identity', 'no right trim of the input', 'frame-pattern group classes', 'discard guard strength', 'sibling constructors pass globals', 'frame-line skeleton agreement writer vs regex', 'header and exception-line separator agreement',
+        ' T19c: limit=None is recognised by identity in both frame walkers. T19.value: the exception instance is never truth-tested. T9.trim: the traceback text is never right-trimmed as a whole.'
+        ' T9.walk: both frame walkers record, advance and count in every step, stop on None/limit, and from_frame reverses.'),
+    'decided': ['frame walkers', 'limit defaulting by identity', 'exception value examined by identity', 'no right trim of the input', 'frame-pattern group classes', 'discard guard strength', 'sibling constructors pass globals', 'frame-line skeleton agreement writer vs regex', 'header and exception-line separator agreement',
                 'frame keys produced vs consumed', 'source line guarded by truthiness', 'checkcache before getline'],
     'declined': ['from_string scanner over optional lines', 'agreement with the traceback module on live exceptions'],
     'trusted_base': ['re._parser', 'string.Formatter field parsing'], 'assumptions': [], 'exhaustive': True,
